@@ -2,8 +2,9 @@
 //
 //  1. adds the virtual package github.com/AdguardTeam/urlfilter/verifshim
 //     (sources in -shim) inside the repository module, and
-//  2. replaces every non-test .go file of the repository that imports "sync"
-//     or golibs/syncutil by a copy whose import line points to the shim.
+//  2. replaces every non-test .go file of the repository that imports "sync",
+//     "sync/atomic" or golibs/syncutil by a copy whose import line points to
+//     the shim.
 //
 // Nothing under -repo is written.  Extra "path=replacement" pairs may be given
 // with -replace to inject candidate changes (used by the mutant self-test).
@@ -21,6 +22,8 @@ import (
 
 var (
 	reSync     = regexp.MustCompile(`(?m)^(\s*)(?:sync\s+)?"sync"\s*$`)
+	reAtomic   = regexp.MustCompile(`(?m)^(\s*(?:import\s+)?)(?:atomic\s+)?"sync/atomic"\s*$`)
+	reAtomicAs = regexp.MustCompile(`(?m)^(\s*(?:import\s+)?)(\w+)\s+"sync/atomic"\s*$`)
 	reSyncutil = regexp.MustCompile(`(?m)^(\s*)(?:syncutil\s+)?"github\.com/AdguardTeam/golibs/syncutil"\s*$`)
 )
 
@@ -76,6 +79,8 @@ func main() {
 		ns := s
 		if !*noShim {
 			ns = reSync.ReplaceAllString(ns, `${1}sync "`+shimPath+`"`)
+			ns = reAtomic.ReplaceAllString(ns, `${1}atomic "`+shimPath+`/vatomic"`)
+			ns = reAtomicAs.ReplaceAllString(ns, `${1}${2} "`+shimPath+`/vatomic"`)
 			ns = reSyncutil.ReplaceAllString(ns, `${1}syncutil "`+shimPath+`/vsyncutil"`)
 		}
 		if ns == s {
